@@ -191,6 +191,15 @@ CONTEXTS = [
     ("indexed-value", "print(@V[0])\n", {"string", "list"}, {"string": ['"ab"'], "list": ["l1"]}, {"object"}),
     ("range-indexed-value", "print(@V[0:0])\n", {"string", "list"}, {}, set()),
     ("type-function", "print(@V->type())\n", set(KINDS) - {"null"}, {}, set()),
+    # the right-hand side of a range assignment is a list or a string — of the right size here for every kind that has a size,
+    # so that the kind is the only thing wrong (an object with as many properties as the range is long, …)
+    ("range-assign-rhs-2", "t := [7, 8, 9]\nt[0:2] = @V\nprint(t)\n", {"string", "list"},
+     {"string": ['"ab"'], "list": ["l1", "[o1, o1]"], "object": ["o2", "o1", "o0"]}, set()),
+    ("range-assign-rhs-1", "t := [7, 8, 9]\nt[1:2] = @V\nprint(t)\n", {"string", "list"},
+     {"string": ['"a"'], "list": ["[9]", "[l1]"], "object": ["o1", "o2"]}, set()),
+    ("range-assign-rhs-all", "t := [7, 8]\nt[:] = @V\nprint(t)\n", {"string", "list"},
+     {"string": ['"ab"'], "list": ["l1"], "object": ["o2"]}, set()),
+    ("range-assign-target", "t := @V\nt[0:2] = [5, 6]\nprint(t)\n", {"list"}, {"list": ["l1", "[1, 2, 3]"], "string": ['"ab"'], "object": ["o2"]}, set()),
     # a condition that is not the first one evaluated by its statement
     ("while-condition-later", "zq := [true, @V, false]\nzi := 0\nwhile zq[zi] {\n    zi += 1\n}\nprint(2)\n", {"bool"}, {}, set()),
     ("else-if-condition", "if false {\n    print(0)\n} else if @V {\n    print(1)\n}\nprint(2)\n", {"bool"}, {}, set()),
